@@ -265,8 +265,27 @@ def prove_stale_dispatch(src_root, ex: Explorer):
             ob.name = 'C06.final.stale-dispatch' + ob.name[len('C03.wrapper'):]
 
 
+def prove_relies_on(src_root, ex: Explorer, which):
+    """Contracts of other properties that finality of abort depends on, discharged here as well:
+       race      cancelling the transfer's task while it waits for a peer connection (RACE mode) stops BOTH connection attempts, so no
+                 connection is opened and no PeerInit sent after abort() returned (C11.race.exit[request-cancelled] and the other exits)
+       evaluate  the re-evaluation after block / friend / share changes never re-queues an upload the USER aborted (C08.evaluate.table,
+                 C08.cycle.transition: reason Requested wins over Blocked / not shared)"""
+    if which == 'race':
+        from contracts import C11
+        C11.prove_race(src_root, ex)
+        pre, new_ = 'C11.race', 'C06.final.no-connection-later.race'
+    else:
+        from contracts import C08
+        C08.prove_evaluate(src_root, ex)
+        pre, new_ = 'C08.', 'C06.final.requested-abort-stays.'
+    for ob in ex.obligations:
+        if ob.name.startswith(pre):
+            ob.name = new_ + ob.name[len(pre):]
+
+
 def items(src_root, tier):
-    return [('slot', None), ('assigns', None), ('callbacks', None), ('cancel', None), ('queue_remotely', None), ('request_site', None), ('remove', None),
+    return [('relies', 'race'), ('relies', 'evaluate'), ('slot', None), ('assigns', None), ('callbacks', None), ('cancel', None), ('queue_remotely', None), ('request_site', None), ('remove', None),
             ('stale', None)]
 
 
@@ -275,6 +294,10 @@ def run_item(src_root, item, tier):
     ex = Explorer()
     kind, arg = item
     try:
+        if kind == 'relies':
+            prove_relies_on(src_root, ex, arg)
+            collect(res, ex)
+            return res
         {'slot': prove_slot_selection, 'assigns': prove_manage_assigns, 'callbacks': prove_done_callbacks, 'cancel': prove_cancel_all,
          'queue_remotely': prove_queue_remotely, 'request_site': prove_transfer_request_site, 'remove': prove_remove,
          'stale': prove_stale_dispatch}[kind](src_root, ex)
